@@ -140,7 +140,9 @@ Definition frame_start (kf : bool) (c : cctx) (x : sess) (override : option Z) (
   let a := frame_resolve c pledge stable in
   let s := c_params c in
   let use := match c_dict c with CD_none => 0 | CD_prefix => 2 + s_dk x | _ => s_dk x end in
-  let lid := match c_dict c with CD_local false => negb (Z.eqb (s C_dictIDFlag) 0) | _ => s_lid x end in
+  (* since fix 2f41a3c ZSTD_loadZstdDictionary always returns the stored ID (before, a dictionary digested while
+     dictIDFlag was 0 kept ID 0 for ever: negb (Z.eqb (s C_dictIDFlag) 0) here); the header writer gates per frame *)
+  let lid := match c_dict c with CD_local false => true | _ => s_lid x end in
   let did := if dict_has_id (c_dict c) && negb (Z.eqb (s C_dictIDFlag) 0)
                 && (match c_dict c with CD_local _ => lid | _ => true end) then s_dk x else 0 in
   let fcs := if negb (Z.eqb (s C_contentSizeFlag) 0) && negb (Z.eqb pledge 0) then pledge - 1 else -1 in
